@@ -8,7 +8,7 @@ from lib.coqgen import N, b, hx, opt, lst
 
 NAME = "purekeys"
 GO_PKG = "./purekeys"
-COQ_IMPORTS = ("From IBC Require Import Lib.Bytes Lib.Dec Lib.BE64 Lib.CorrLib Core.Height Keys.Ident Keys.StoreKeys Corr.PureKeys.")
+COQ_IMPORTS = ("From IBC Require Import Lib.Bytes Lib.Dec Lib.BE64 Lib.CorrLib Core.Height Keys.Ident Keys.StoreKeys Keys.Commit Keys.Router Corr.PureKeys.")
 CASE_TYPE = "Case"
 CHECK = "check"
 
@@ -348,6 +348,204 @@ def spec_client_store_write(r):
         return "ClientStore(%r).Set(%r) wrote raw key %r" % (idb, sub, out[0])
 
 
+# ---- C07 -------------------------------------------------------------------------------------
+
+def enc_sha(r):
+    return "Sha %s %s" % (hx(r["in"]), hx(r["out"]))
+
+
+def enc_pkt1(r):
+    ts, rn, rh, data = r["in"][:4]
+    return "PktCommit1 %s %s %s %s %s" % (N(ts), N(rn), N(rh), hx(data), hx(r["out"]))
+
+
+def enc_ack1(r):
+    return "AckCommit1 %s %s" % (hx(r["in"]), hx(r["out"]))
+
+
+def _payload(p):
+    return "(mkPayload %s %s %s %s %s)" % tuple(hx(x) for x in p)
+
+
+def enc_pkt2(r):
+    seq, src, dest, ts, ps = r["in"]
+    return "PktCommit2 %s %s %s %s" % (hx(dest), N(ts), lst(ps, _payload), hx(r["out"]))
+
+
+def enc_ack2(r):
+    return "AckCommit2 %s %s" % (lst(r["in"], hx), hx(r["out"]))
+
+
+def _h(x):
+    return hashlib.sha256(x).digest()
+
+
+def spec_sha(r):
+    if _h(unhex(r["in"])).hex() != r["out"]:
+        return "sha256 of %r differs from hashlib" % unhex(r["in"])
+
+
+def spec_pkt1(r):
+    ts, rn, rh, data = r["in"][:4]
+    want = _h(int(ts).to_bytes(8, "big") + int(rn).to_bytes(8, "big") + int(rh).to_bytes(8, "big") + _h(unhex(data)))
+    if want.hex() != r["out"]:
+        return "v1 CommitPacket(timestamp=%s, height=%s-%s, data=%r) = %s, the specification's formula gives %s" % (
+            ts, rn, rh, unhex(data), r["out"], want.hex())
+
+
+def spec_ack1(r):
+    if _h(unhex(r["in"])).hex() != r["out"]:
+        return "v1 CommitAcknowledgement(%r) = %s is not sha256(ack)" % (unhex(r["in"]), r["out"])
+
+
+def _commit2(dest, ts, ps):
+    app = b"".join(_h(b"".join(_h(unhex(f)) for f in p)) for p in ps)
+    return _h(b"\x02" + _h(unhex(dest)) + _h(int(ts).to_bytes(8, "big")) + _h(app))
+
+
+def spec_pkt2(r):
+    seq, src, dest, ts, ps = r["in"]
+    want = _commit2(dest, ts, ps)
+    if want.hex() != r["out"]:
+        return "v2 CommitPacket(dest=%r, timeout=%s, %d payloads) = %s, the specification's formula gives %s" % (
+            unhex(dest), ts, len(ps), r["out"], want.hex())
+
+
+def spec_ack2(r):
+    want = _h(b"\x02" + b"".join(_h(unhex(a)) for a in r["in"]))
+    if want.hex() != r["out"]:
+        return "v2 CommitAcknowledgement(%d app acks) = %s, the specification's formula gives %s" % (len(r["in"]), r["out"], want.hex())
+
+
+def _committed_fields(r):
+    k = r["k"]
+    if k == "pkt_commit1":
+        return ("v1", tuple(r["in"][:4]))
+    if k == "pkt_commit2":
+        seq, src, dest, ts, ps = r["in"]
+        return ("v2", dest, ts, tuple(tuple(p) for p in ps))
+    if k == "ack_commit1":
+        return ("ack1", r["in"])
+    if k == "ack_commit2":
+        return ("ack2", tuple(r["in"]))
+    return None
+
+
+def monitor_commitments(records, indices):
+    """packets / acknowledgements differing in a committed field never share a commitment, and packets differing only
+    in uncommitted fields do (determinism), within the generated batch"""
+    bad = []
+    by_out = {}
+    by_fields = {}
+    for r, i in zip(records, indices):
+        f = _committed_fields(r)
+        if f is None:
+            continue
+        o = by_out.get(r["out"])
+        if o is None:
+            by_out[r["out"]] = (f, i)
+        elif o[0] != f and not (o[0][0] in ("ack1",) and f[0] in ("ack1",)):
+            # (a v1 ack commitment is sha256(ack): equal commitments for different acks would be a SHA-256 collision)
+            bad.append((i, "two inputs differing in a committed field share the commitment %s: %s vs %s (tag %s)" % (
+                r["out"], str(o[0])[:200], str(f)[:200], r.get("tag"))))
+        g = by_fields.get(f)
+        if g is None:
+            by_fields[f] = r["out"]
+        elif g != r["out"]:
+            bad.append((i, "the commitment is not a function of the committed fields alone: %s gives %s and %s" % (str(f)[:200], g, r["out"])))
+    return bad
+
+
+# ---- C48 -------------------------------------------------------------------------------------
+
+def _op2(o):
+    pre, name, mid = o
+    return "(%s %s %s)" % ("AddP" if pre else "AddR", hx(name), N(mid))
+
+
+def _res2(x):
+    return "(%s, %s)" % (b(x[0]), opt(x[1], N))
+
+
+def enc_router2(r):
+    ops, perm, ports = r["in"]
+    a1, r1, a2, r2 = r["out"]
+    one = lambda o, a, rs: "(Router2Case %s %s %s %s)" % (lst(o, _op2), lst(ports, hx), lst(a, b), lst(rs, _res2))
+    return "Both %s %s" % (one(ops, a1, r1), one(perm, a2, r2))
+
+
+def _res1(x):
+    return opt(x, N)
+
+
+def _op1(o):
+    sl, name, mid = o
+    return "(%s, %s, %s)" % (b(sl), hx(name), N(mid))
+
+
+def _match_v2(accepted_ops, port):
+    """modules registered for a port by the accepted registrations: exact route or prefix route"""
+    out = set()
+    for pre, name, mid in accepted_ops:
+        nb, pb = unhex(name), unhex(port)
+        if (pre and pb.startswith(nb)) or (not pre and pb == nb):
+            out.add(mid)
+    return out
+
+
+def spec_router2(r):
+    ops, perm, ports = r["in"]
+    a1, r1, a2, r2 = r["out"]
+    for (o, a, rs, label) in ((ops, a1, r1, "first order"), (perm, a2, r2, "second order")):
+        acc_ops = [x for x, ok in zip(o, a) if ok]
+        for port, (has, got) in zip(ports, rs):
+            ms = _match_v2(acc_ops, port)
+            if len(ms) > 1:
+                return "port %r matches %d registered modules %s after accepted registrations %s (%s): ambiguous route accepted" % (
+                    unhex(port), len(ms), sorted(ms), [(p, unhex(nm), i) for p, nm, i in acc_ops], label)
+            want = next(iter(ms)) if ms else None
+            if got != want or has != (want is not None):
+                return "port %r resolves to %s (HasRoute=%s) but the accepted registrations %s determine %s (%s)" % (
+                    unhex(port), got, has, [(p, unhex(nm), i) for p, nm, i in acc_ops], want, label)
+    if all(a1) != all(a2):
+        return "the same registrations are all accepted in one order and not in the other: %s -> %s, %s -> %s" % (
+            [(p, unhex(nm), i) for p, nm, i in ops], a1, [(p, unhex(nm), i) for p, nm, i in perm], a2)
+    if all(a1) and r1 != r2:
+        return "resolution depends on the registration order: %s vs %s" % (r1, r2)
+
+
+def spec_router1(r):
+    """the property text only: a registered exact name wins, the answer is one of the registered modules, and it
+    does not depend on the registration order (the substring/sorted-key rule itself is left to the correspondence)"""
+    ops, perm, ports = r["in"]
+    a1, r1, k1, a2, r2, k2 = r["out"]
+    accs = []
+    for (o, a, rs, label) in ((ops, a1, r1, "first order"), (perm, a2, r2, "second order")):
+        acc_ops = {}
+        for (sl, nm, mid), ok in zip(o, a):
+            if ok:
+                if unhex(nm) in acc_ops:
+                    return "route name %r was registered twice (%s)" % (unhex(nm), label)
+                acc_ops[unhex(nm)] = mid
+        accs.append(acc_ops)
+        for port, got in zip(ports, rs):
+            pb = unhex(port)
+            if pb in acc_ops and got != acc_ops[pb]:
+                return "v1 Route(%r) = %s although %r is registered for module %s (%s)" % (pb, got, pb, acc_ops[pb], label)
+            if got is not None and got not in acc_ops.values():
+                return "v1 Route(%r) = %s is not a registered module (%s)" % (pb, got, label)
+    if accs[0] == accs[1] and r1 != r2:
+        return "v1 routing of %s over the same routes %s depends on the registration order: %s vs %s" % (
+            [unhex(p) for p in ports], accs[0], r1, r2)
+
+
+def enc_router1(r):
+    ops, perm, ports = r["in"]
+    a1, r1, k1, a2, r2, k2 = r["out"]
+    one = lambda o, a, rs, ks: "(Router1Case %s %s %s %s %s)" % (lst(o, _op1), lst(ports, hx), lst(a, b), lst(rs, _res1), lst(ks, hx))
+    return "Both %s %s" % (one(ops, a1, r1, k1), one(perm, a2, r2, k2))
+
+
 def nontrivial_accept(r):
     return r["out"][1] is not None
 
@@ -368,10 +566,18 @@ KINDS = {
     "conn_parse": dict(props=["C15"], enc=enc_cc_parse("ConnParse"), spec=spec_cc_parse(b"connection-"), exact=False),
     "parse_ident": dict(props=["C15"], enc=enc_parse_ident, spec=spec_parse_ident, exact=False),
     "counters": dict(props=["C15"], enc=enc_counters, spec=spec_counters, exact=True),
+    "sha256": dict(props=["C07"], enc=enc_sha, spec=spec_sha, exact=False),
+    "pkt_commit1": dict(props=["C07"], enc=enc_pkt1, spec=spec_pkt1, exact=True),
+    "ack_commit1": dict(props=["C07"], enc=enc_ack1, spec=spec_ack1, exact=True),
+    "pkt_commit2": dict(props=["C07"], enc=enc_pkt2, spec=spec_pkt2, exact=True),
+    "ack_commit2": dict(props=["C07"], enc=enc_ack2, spec=spec_ack2, exact=True),
+    "router2": dict(props=["C48"], enc=enc_router2, spec=spec_router2, exact=True,
+                    nontrivial=lambda r: any(r["out"][0]) and not all(r["out"][0])),
+    "router1": dict(props=["C48"], enc=enc_router1, spec=spec_router1, exact=False),
     "key": dict(props=["C16"], enc=enc_key, spec=spec_key, exact=False),
     "iter": dict(props=["C16"], enc=enc_iter, spec=spec_iter, exact=False, nontrivial=lambda r: bool(r["out"])),
     "client_store_write": dict(props=["C16"], enc=enc_client_store_write, spec=spec_client_store_write, exact=True),
 }
 
-MONITORS = {"C16": [monitor_keys]}
+MONITORS = {"C16": [monitor_keys], "C07": [monitor_commitments]}
 KNOWN = {}
